@@ -82,6 +82,9 @@ def run_case(case, ctx):
         spec.notes['amplitude_threshold'] = 0.4
     if case['seed'][-1] % 3 == 1:
         spec.notes['ks2_templates_ind'] = True       # a Kilosort-2 style templates_ind.npy lies next to the dense templates (ignored by phylib)
+    if spec.pc_feature_ind is not None and spec.pc_feature_ind.shape[1] >= 2 and case['seed'][-1] % 6 == 4:
+        # a template whose column table lists one channel twice (both columns carry weight in the depth formula)
+        spec.pc_feature_ind[0, 1] = spec.pc_feature_ind[0, 0]
     if case['seed'][-1] % 5 == 3:
         # every spike of one template has a stored amplitude of exactly 0: its mean is 0 (it has spikes), not NaN
         spec.amplitudes[spec.spike_templates == spec.spike_templates[0]] = 0
